@@ -95,6 +95,12 @@ func (c *Conversation) verifySMP2(s1 *smp1State, msg smp2Message) error {
 		return newOtrError("Qb is an invalid group element")
 	}
 
+	// Pb and Qb are going to be divided by. Whatever the protocol version says
+	// about checking group elements, a value that has no inverse can not be used.
+	if modInverse(msg.pb, p) == nil || modInverse(msg.qb, p) == nil {
+		return newOtrError("Pb or Qb has no inverse")
+	}
+
 	if !isExponent(msg.d2) {
 		return newOtrError("D2 is an invalid exponent")
 	}
